@@ -387,7 +387,7 @@ func minimalPayload(code uint16) ([]byte, bool) {
 	}
 	for l := 0; l <= 64; l++ {
 		p := make([]byte, l)
-		if v, _ := v6ref.VerdictOfOption(code, p); v == v6ref.Accept {
+		if v, _ := v6ref.VerdictOfOption(code, p); v.HasTree() {
 			return p, true
 		}
 	}
